@@ -1009,8 +1009,14 @@ package astits
 //@   at return#last assert [C02] exactfit: i.offset == len(i.bs) ==> result
 //@   at return#last assert [C02] overrun: i.offset > len(i.bs) ==> !result
 
+// A PacketsParser is user code: assumed not to panic, not to touch library state, and to return a well-formed list
+// (no nil entries) that it does not share with the demuxer's own buffer.
+//@ extern type:astits.PacketsParser
+//@   ensures [C03,C02,C07,C19] assumed: dsOK(ds) && (len(ds) > 0 ==> fresh(ds))
+
 // toData only re-packages the parsed sections (assumed to neither fail nor touch the packets).
 //@ extern (*PSIData).toData
+//@   ensures [C03,C02,C07,C19] data: dsOK(result) && (len(result) > 0 ==> fresh(result))
 
 // parseData: the unit group is parsed from exactly the bytes of its packets' payloads (the iterator handed to
 // parsePSIData / parsePESData spans the pooled buffer of exactly l bytes, from offset 0), and a custom
@@ -1022,8 +1028,9 @@ package astits
 //@   modifies calls(prs)
 //@   requires 0 < len(ps) && len(ps) < 0x10000 && allocated(ps) && forall(k, 0, len(ps), pktOK(ps[k]))
 //@   requires pm != nil && pm.p != nil
-//@   loop 0 invariant [C03,C02,C09,C19] sum: rangeindex == iter - 1 && iter <= len(ps) && 0 <= l && l <= iter * 0x10000
-//@   loop 1 invariant [C03,C02,C09,C19] cp: rangeindex == iter - 1 && iter <= len(ps) && 0 <= c && c <= len(payload.s) && payload != nil && len(payload.s) == l && len(payload.s) <= cap(payload.s) && allocated(payload.s) && 0 <= l && l < 0x100000000
+//@   loop 0 invariant [C03,C02,C09,C19,C07] sum: rangeindex == iter - 1 && iter <= len(ps) && 0 <= l && l <= iter * 0x10000
+//@   loop 1 invariant [C03,C02,C09,C19,C07] cp: rangeindex == iter - 1 && iter <= len(ps) && 0 <= c && c <= len(payload.s) && payload != nil && len(payload.s) == l && len(payload.s) <= cap(payload.s) && allocated(payload.s) && 0 <= l && l < 0x100000000
+//@   ensures [C03] data: err == nil ==> dsOK(ds) && (len(ds) > 0 ==> fresh(ds))
 //@   ensures [C19] skipds: prs != nil && ret(prs, 2) == nil && ret(prs, 1) ==> err == nil && ds == ret(prs, 0)
 //@   ensures [C19,C18] prserr: prs != nil && ret(prs, 2) != nil ==> err != nil
 //@   at call (*bytesPooler).get#0 assert [C19] notskipped: prs == nil || !ret(prs, 1)
@@ -1655,8 +1662,20 @@ package astits
 // pool's map, the data buffer and the program map).
 //@ extern (*packetPool).dumpUnlocked
 //@   modifies mapof(b.b)
-//@ extern (*Demuxer).updateData
-//@   modifies dmx.dataBuffer, mapof(dmx.programMap.p)
+// updateData: the first datum is handed out, the others are queued behind what is already buffered, in order;
+// with nothing to hand out nothing changes. (The program map update is verified for safety only.)
+//@ func (*Demuxer).updateData
+//@   opt noframe
+//@   opt noloopframe
+//@   modifies dmx.dataBuffer, elems(dmx.dataBuffer), mapof(dmx.programMap.p)
+//@   requires dmx != nil && dmx.programMap != nil && dmx.programMap.p != nil && 0 <= len(dmx.dataBuffer) && len(dmx.dataBuffer) <= cap(dmx.dataBuffer) && cap(dmx.dataBuffer) < 0x1000000000000 && allocated(dmx.dataBuffer)
+//@   requires (len(ds) > 0 ==> base(ds) != base(dmx.dataBuffer)) && dsOK(ds)
+//@   loop 0 invariant [C03,C02,C07] outer: rangeindex == iter - 1 && iter <= len(ds) && dmx.programMap != nil && dmx.programMap.p != nil && dmx.programMap == old(dmx.programMap) && len(dmx.dataBuffer) == old(len(dmx.dataBuffer)) + len(ds) - 1 && d == ds[0]
+//@   loop 1 invariant [C03,C02,C07] inner: rangeindex == iter - 1 && iter <= len(v.PAT.Programs) && dmx.programMap != nil && dmx.programMap.p != nil && dmx.programMap == old(dmx.programMap) && len(dmx.dataBuffer) == old(len(dmx.dataBuffer)) + len(ds) - 1 && d == ds[0] && v != nil && v.PAT != nil && 0 <= len(v.PAT.Programs) && allocated(v.PAT.Programs) && forall(j, 0, len(v.PAT.Programs), v.PAT.Programs[j] != nil)
+//@   ensures [C02,C07] first: len(ds) > 0 ==> d == ds[0] && len(dmx.dataBuffer) == old(len(dmx.dataBuffer)) + len(ds) - 1
+//@   ensures [C02,C07] none: len(ds) == 0 ==> d == nil && len(dmx.dataBuffer) == old(len(dmx.dataBuffer)) && dmx.dataBuffer == old(dmx.dataBuffer)
+//@   ensures [C02,C07] keeps: dmx.programMap == old(dmx.programMap)
+//@   ensures [C03,C02,C07] wf: 0 <= len(dmx.dataBuffer) && len(dmx.dataBuffer) <= cap(dmx.dataBuffer) && cap(dmx.dataBuffer) < 0x1000000000000 && allocated(dmx.dataBuffer)
 
 // NextData: buffered data first, in order, without touching the reader; a reader failure is reported; the
 // packet groups go to parseData with the demuxer's own parser and program map. The preconditions of
@@ -1666,10 +1685,14 @@ package astits
 //@   opt noloopframe
 //@   requires dmx != nil && dmx.packetPool != nil && dmx.packetPool.b != nil && dmx.programMap != nil && dmx.programMap.p != nil
 //@   requires (dmx.packetBuffer == nil ==> rdPos(dmx.r) == 0 && rdEnded(dmx.r) == 0) && (dmx.packetBuffer != nil ==> pbOK(dmx.packetBuffer) && dmx.packetBuffer.r == dmx.r) && (dmx.optPacketSize == 0 || (188 <= dmx.optPacketSize && dmx.optPacketSize < 0x10000))
-//@   requires 0 <= len(dmx.dataBuffer) && len(dmx.dataBuffer) <= cap(dmx.dataBuffer) && allocated(dmx.dataBuffer)
+//@   requires 0 <= len(dmx.dataBuffer) && len(dmx.dataBuffer) <= cap(dmx.dataBuffer) && cap(dmx.dataBuffer) < 0x1000000000000 && allocated(dmx.dataBuffer)
+//@   loop 0 invariant [C19,C03,C02,C07] databuf: 0 <= len(dmx.dataBuffer) && len(dmx.dataBuffer) <= cap(dmx.dataBuffer) && cap(dmx.dataBuffer) < 0x1000000000000 && allocated(dmx.dataBuffer)
+//@   loop 1 invariant [C19,C03,C02,C07] databuf: 0 <= len(dmx.dataBuffer) && len(dmx.dataBuffer) <= cap(dmx.dataBuffer) && cap(dmx.dataBuffer) < 0x1000000000000 && allocated(dmx.dataBuffer)
 //@   loop 0 invariant [C18,C19,C03,C02,C07] stable: dmx != nil && dmx.packetPool != nil && dmx.packetPool.b != nil && dmx.programMap != nil && dmx.programMap.p != nil && dmx.r == old(dmx.r) && dmx.packetPool == old(dmx.packetPool) && dmx.programMap == old(dmx.programMap) && dmx.optPacketsParser == old(dmx.optPacketsParser) && dmx.optPacketSize == old(dmx.optPacketSize) && rdFail(dmx.r) == old(rdFail(dmx.r))
 //@   loop 0 invariant [C19,C03,C02,C07] buffer: (dmx.packetBuffer == nil ==> rdPos(dmx.r) == 0 && rdEnded(dmx.r) == 0) && (dmx.packetBuffer != nil ==> pbOK(dmx.packetBuffer) && dmx.packetBuffer.r == dmx.r)
 //@   loop 1 invariant [C18,C19,C03,C02,C07] stable: dmx != nil && dmx.packetPool != nil && dmx.packetPool.b != nil && dmx.programMap != nil && dmx.programMap.p != nil && dmx.packetPool == old(dmx.packetPool) && dmx.programMap == old(dmx.programMap) && dmx.optPacketsParser == old(dmx.optPacketsParser) && dmx.r == old(dmx.r) && rdFail(dmx.r) == old(rdFail(dmx.r))
 //@   at call parseData#* assert [C19] parser: $prs == dmx.optPacketsParser && $pm == dmx.programMap
+//@   at call parseData#1 assert [C19,C02] dumped: $ps == retof("(*packetPool).dumpUnlocked", 0) && len($ps) != 0
+//@   at call parseData#0 assert [C19,C02] group: $ps == retof("(*packetPool).addUnlocked", 0) && len($ps) != 0
 //@   ensures [C02,C07] buffered: old(len(dmx.dataBuffer)) > 0 ==> d == old(dmx.dataBuffer[0]) && err == nil && len(dmx.dataBuffer) == old(len(dmx.dataBuffer)) - 1 && rdPos(dmx.r) == old(rdPos(dmx.r)) && dmx.packetPool == old(dmx.packetPool)
 //@   ensures [C18] surfaced: rdFail(dmx.r) != old(rdFail(dmx.r)) ==> err != nil
